@@ -87,9 +87,16 @@ func c13Decode(c *Ctx, s []byte) {
 		return obsDecode(b, err)
 	})
 	c.Case(E_B64Decode, [][]byte{s}, func() Obs { b, err := base64.DecodeString(string(s)); ok64 = err == nil; return obsDecode(b, err) })
-	c.Case(E_B32DecodeSafe, [][]byte{s}, func() Obs { return obsDecode(base32.DecodeStringSafe(string(s))) })
-	c.Case(E_B32DecodeSafeNoPad, [][]byte{s}, func() Obs { return obsDecode(base32.DecodeStringSafeNoPadding(string(s))) })
-	c.Case(E_B64DecodeSafe, [][]byte{s}, func() Obs { return obsDecode(base64.DecodeStringSafe(string(s))) })
+	var okS32, okS32n, okS64 bool
+	c.Case(E_B32DecodeSafe, [][]byte{s}, func() Obs { b, err := base32.DecodeStringSafe(string(s)); okS32 = err == nil; return obsDecode(b, err) })
+	c.Case(E_B32DecodeSafeNoPad, [][]byte{s}, func() Obs {
+		b, err := base32.DecodeStringSafeNoPadding(string(s))
+		okS32n = err == nil
+		return obsDecode(b, err)
+	})
+	c.Case(E_B64DecodeSafe, [][]byte{s}, func() Obs { b, err := base64.DecodeStringSafe(string(s)); okS64 = err == nil; return obsDecode(b, err) })
+	// the size-guarded variants accept no more than the plain decoders
+	ok32, ok32n, ok64 = ok32 || okS32, ok32n || okS32n, ok64 || okS64
 	// only the alphabet (plus CR/LF, plus '=' where padding is used) is ever accepted
 	foreign := func(alpha string, padOK bool) bool {
 		for _, ch := range s {
